@@ -718,6 +718,7 @@ def real_cell_geometry(P, lo, hi, i, Ni, scale, tets=None):
     # INTERNAL positions, in binary64 from the REAL positions: first-order rounding error ~ u rho^4 / |det(r_a, r_b, r_c)| with
     # rho the longest of the three edges from g_i (exact integer determinant of the real positions).
     kappa_rho = 0.0
+    kappa = 1.0              # dimensionless rho^3/|det|: amplification of a plane displacement into a vertex displacement
     if tets is not None:
         def rv(code):
             if code < MAXIDX:
@@ -742,6 +743,8 @@ def real_cell_geometry(P, lo, hi, i, Ni, scale, tets=None):
             kr = rho ** 4 / (abs(float(D)) * scale ** 3)
             if kr > kappa_rho:
                 kappa_rho = kr
+            if kr / rho > kappa:
+                kappa = kr / rho
     else:
         # fall back (no tetrahedra available): triples of constraints tight at each exact vertex
         rlen0 = [math.sqrt(float(r[0] * r[0] + r[1] * r[1] + r[2] * r[2])) * scale for r in rvec]
@@ -764,7 +767,7 @@ def real_cell_geometry(P, lo, hi, i, Ni, scale, tets=None):
         faces[key] = val
     rl = [math.sqrt(float(r[0] * r[0] + r[1] * r[1] + r[2] * r[2])) * scale for r in rvec[6:]]
     rmin_half = min(rl) / 2 if rl else math.inf
-    return dict(volume=vol, centroid=cen, faces=faces, kappa_rho=kappa_rho, surface=surface, diam=diam, nverts=len(verts), rmin_half=rmin_half)
+    return dict(volume=vol, centroid=cen, faces=faces, kappa_rho=kappa_rho, kappa=kappa, surface=surface, diam=diam, nverts=len(verts), rmin_half=rmin_half)
 
 
 # =====================================================================================================================
@@ -970,7 +973,8 @@ def numeric_oracle(pr, V, tag, cells, fnd, stats, geo_cache, old=False, flags=No
         if old:
             # OldVoronoiGrid decides 'vertex on plane' with an ABSOLUTE tolerance eps = 2e-10 |sides|^2 on r.v - |r|^2 (r = half the
             # separation vector): a plane can be displaced by eps/|r|
-            eta += 4 * 2e-10 * L2 / geo["rmin_half"]
+            # a plane can be displaced by eps/|r|, a vertex (intersection of three planes) by kappa times that
+            eta += 4 * 2e-10 * L2 / geo["rmin_half"] * geo["kappa"]
         tolV = 4 * eta * geo["surface"] + 64 * U * geo["volume"]
         ill = not (tolV <= ILL * geo["volume"])
         res[i] = (tolV, ill, eta)
@@ -1005,7 +1009,14 @@ def numeric_oracle(pr, V, tag, cells, fnd, stats, geo_cache, old=False, flags=No
                 continue
             ar, mid = rep[key][0]
             if len(rep[key]) > 1:
-                fnd.add("duplicate_face", "%s cell %d: neighbour %d reported %d times" % (tag, i, key, len(rep[key])), cell=i)
+                if old:
+                    # the tolerance based algorithm can report one face as several coplanar pieces with the same neighbour (seen on
+                    # nearly degenerate sets): harmless for every consumer (they sum over faces); merge the pieces
+                    stats["old_split_faces"] = stats.get("old_split_faces", 0) + 1
+                    ar = sum(x[0] for x in rep[key])
+                    mid = tuple(sum(x[0] * x[1][k] for x in rep[key]) / ar for k in range(3)) if ar > 0 else mid
+                else:
+                    fnd.add("duplicate_face", "%s cell %d: neighbour %d reported %d times" % (tag, i, key, len(rep[key])), cell=i)
             worst["area"] = max(worst["area"], abs(ar - aex) / max(tolA, tol_deg * 1e-3))
             if not (abs(ar - aex) <= max(tolA, 0.0)) and abs(ar - aex) > tol_deg * 1e-3:
                 fnd.add("face_area", "%s cell %d -> %d: face area %.17g, exact %.17g (difference %.3g, tolerance %.3g)" % (tag, i, key, ar, aex, abs(ar - aex), tolA), cell=i, ngb=key)
@@ -1232,7 +1243,7 @@ def process(problems, impl, model, tier_quick, stats_all, log=None, cert_cap=Non
                     indomain = all(not t[1] for t in to.values())
                 else:
                     L2 = sum(x * x for x in pr["sides"])
-                    indomain = all(4 * (4 * 2e-10 * L2 / geo[i]["rmin_half"]) * geo[i]["surface"] <= ILL * geo[i]["volume"] for i in range(n))
+                    indomain = all(4 * (4 * 2e-10 * L2 / geo[i]["rmin_half"] * geo[i]["kappa"]) * geo[i]["surface"] <= ILL * geo[i]["volume"] for i in range(n))
                 st["old_compared"] = 1
                 if not old_ok:
                     if indomain:
@@ -1363,11 +1374,12 @@ def build_specs(rng, quick):
             specs.append(make_spec(rng, pts, 0, b, 6, label=name))
     sizes = [(10, 50), (50, 140)] if quick else [(6, 30), (30, 100), (100, 200), (200, 400)]
     bi = rng.below(len(BOX_KINDS))
-    for cls in CLASSES:
-        for (a, b) in sizes:
-            n = a + rng.below(b - a)
-            specs.append(make_spec(rng, cls, n, BOX_KINDS[bi % len(BOX_KINDS)], 16 if quick else 40))
-            bi += 1
+    for rep in range(1 if quick else 2):
+        for cls in CLASSES:
+            for (a, b) in sizes:
+                n = a + rng.below(b - a)
+                specs.append(make_spec(rng, cls, n, BOX_KINDS[bi % len(BOX_KINDS)], 16 if quick else 40))
+                bi += 1
     # larger sets: threaded construction (job size of the grids is 100 cells), certificates on a sample of cells
     big = [("uniform", 320), ("perturbed3", 343)] if quick else [("uniform", 700), ("perturbed3", 1000), ("clustered", 1200), ("lattice", 1728), ("uniform", 2000), ("walls", 1500)]
     for cls, n in big:
@@ -1408,7 +1420,7 @@ def run(ck):
             if nviol >= 4:
                 ck.notes.append("stopped after %d of %d generator sets: %d violations already reported" % (done, len(probs), nviol))
                 break
-            results = process(probs[b0:b0 + bs], impl, model, ck.quick, stats, cert_cap=(60 if ck.quick else 150), env=henv)
+            results = process(probs[b0:b0 + bs], impl, model, ck.quick, stats, cert_cap=(80 if ck.quick else 200), env=henv)
             done += len(results)
             for pr, items, info in results:
                 key = "%s/%s" % (pr["cls"], pr["box"])
